@@ -8,7 +8,7 @@ EXTENDS MxjMapGen, MxjPath, Json
 CONSTANTS SearchKeys, CondKeys, MaxConds, PathNames, MaxPath, DoEmit
 
 CondVals == {[kind |-> "s", v |-> "x"], [kind |-> "star", v |-> "*"], [kind |-> "b", v |-> "true"], [kind |-> "f", v |-> "0.1"]}
-            \cup (IF VF("1e-10") \in Scalars THEN {[kind |-> "f", v |-> "1e-10"], [kind |-> "f", v |-> "0"]} ELSE {})       \* (numbers are compared exactly, however close)
+            \cup (IF VF("1e-10") \in Scalars THEN {[kind |-> "f", v |-> "1e-10"], [kind |-> "f", v |-> "0"], [kind |-> "f", v |-> "1.6777217e+07"]} ELSE {})       \* (numbers are compared exactly, however close)
             \cup (IF VS("^") \in Scalars THEN {[kind |-> "s", v |-> "^"]} ELSE {})       \* (the long value of the placeholder alphabets, as a condition too)       \* (0.1: not exact in single precision)
 AllConds == {[k |-> k, neg |-> n, kind |-> cv.kind, v |-> cv.v] : k \in CondKeys, n \in BOOLEAN, cv \in CondVals}
 CondSets == {{}} \cup (IF MaxConds >= 1 THEN {{c} : c \in AllConds} ELSE {})
@@ -41,6 +41,6 @@ cScalars1 == {VS("x")}
 \* placeholder alphabets (check.py SUBST): "~" becomes a 36-byte key that begins with a two-byte character, "^" a 4.2 KiB value
 cScalarsLong == {VS("x"), VS("^"), VB("true")}
 \* numbers of very small magnitude, closer to each other and to zero than any tolerance one might think of
-cScalarsTiny == {VF("1e-10"), VF("3e-10"), VF("0"), VF("-2.5e-12")}
+cScalarsTiny == {VF("1e-10"), VF("3e-10"), VF("0"), VF("-2.5e-12"), VF("1.6777216e+07"), VF("1.6777217e+07")}      \* (... and 2^24, 2^24 + 1: one number in single precision)
 
 =============================================================================
